@@ -208,6 +208,10 @@ def main():
       # ---- float16 ----
       if rng.random() < 0.3:
         x = rand_f32(rng)
+        if rng.random() < 0.4:      # around the float16 range and its subnormals
+          x = np.float32(rng.choice([65504.0, 65519.0, 65519.996, 65520.0, -65520.0, 65536.0, 1e5, -3e7,
+                                     6.1035156e-05, 6.0e-05, 5.9604645e-08, 2.9802322e-08, 2.98e-08,
+                                     1.0009766, 1.0004883, 1.0014648]) * rng.choice([1.0, 1.0, -1.0]))
         h = np.array([x], dtype=np.float32).astype(np.float16)
         if not np.isnan(h[0]):
           add('f16', f'[f32_to_f16_bits (b32_of_bits {f32bits(x)})]',
